@@ -6,6 +6,7 @@ for the shard's level (`vflag()`): `--debug` at debug, `-q` otherwise (one flag 
 depend on the level).  Checks that study verbosity themselves (C03, C11) override this locally and restore it.
 """
 LEVEL = ['normal']
+BASE = ['cart']      # base name for the cart files a shard hands to the command line (rotates over vf.carts.CART_BASENAMES)
 
 
 class Sink:
@@ -35,6 +36,12 @@ def install(spec):
         digits = ''.join(ch for ch in name if ch.isdigit())
         level = ('normal', 'debug', 'quiet')[int(digits or 0) % 3]
     LEVEL[0] = level
+    try:
+        from . import carts
+        digits = ''.join(ch for ch in str(spec.get('name', 'shard0')) if ch.isdigit())
+        BASE[0] = carts.cart_basename(int(digits or 0) + 1)
+    except Exception:
+        pass
     util._write_stream = Sink()
     util._error_stream = Sink()
     util.set_verbosity({'quiet': util.VERBOSITY_QUIET, 'normal': util.VERBOSITY_NORMAL, 'debug': util.VERBOSITY_DEBUG}[level])
